@@ -467,10 +467,12 @@ class SymEx:
                 return
             first = False
             visits = dict(visits)
-            visits[bb] = visits.get(bb, 0) + 1
-            if visits[bb] > 1:
+            prog = st.notes.get('progress', 0)
+            if bb in visits and (visits[bb] >= prog or prog > 64):
+                # re-entered without having consumed an item of a finite sequence since the last visit: a real loop
                 self.aborted.append((body.path, bb, 'loop'))
                 return
+            visits[bb] = prog
             blk = body.blocks[bb]
             try:
                 for s in blk['stmts']:
@@ -844,6 +846,18 @@ class SymEx:
         if items is not None and last == 'chain' and len(args) == 2 and self.as_seq(st, args[1]) is None and \
                 'Option' not in (args[1][1] if args[1][0] == 'struct' else '') and args[1][0] in ('app', 'unk', 'sym'):
             return [(st, ('seqmin', tuple(items)))]
+        if last == 'next' and len(args) == 1 and args[0][0] == 'ref' and items is not None and \
+                isinstance(a0, tuple) and a0[0] == 'seq' and ('Iterator' in trait):
+            # a finite, known sequence is iterated concretely: the loop around this call is unrolled (see _exec: a block may be
+            # re-entered only after an item was consumed, so the unrolling ends with the sequence)
+            r = args[0]
+            rest = ('seq', tuple(items[1:]))
+            b0 = st.frames[r[1]].get(r[2])
+            st.frames[r[1]][r[2]] = self._set_path(b0, list(r[3]), rest) if r[3] else rest
+            st.notes['progress'] = st.notes.get('progress', 0) + 1       # (exhaustion is the last step; runaway re-entry is bounded)
+            if items:
+                return [(st, STRUCT('std::option::Option', ('Some', 1), [('0', items[0])]))]
+            return [(st, STRUCT('std::option::Option', ('None', 0), []))]
         if last in ('push', 'append', 'extend') and args[0][0] == 'ref':
             cur = self.load(st, args[0])
             base = self.as_seq(st, cur)
